@@ -92,6 +92,13 @@ Example C13_exact_nonvacuous :
   (sample_of [[(1,2,3); (200,2,3)]; [(1,2,3); (7,7,7)]]%N 2 < 2)%N.
 Proof. split; [apply N.leb_le; vm_compute; reflexivity|apply N.ltb_lt; vm_compute; reflexivity]. Qed.
 
+(* requested sizes above usize::MAX / 100 (the product `palette_size * 100` saturates) *)
+Example C13_huge_size_nonvacuous :
+  quantize [[(1,2,3); (200,2,3)]; [(1,2,3); (7,7,7)]]%N 4611686018427387904 true
+  = Ok ([(1,2,3); (7,7,7); (200,2,3)]%N, [[0; 2]; [0; 1]]%N) /\
+  (sample_of [[(1,2,3); (200,2,3)]; [(1,2,3); (7,7,7)]]%N 368934881474191033 < 2)%N.
+Proof. split; [vm_compute; reflexivity|apply N.ltb_lt; vm_compute; reflexivity]. Qed.
+
 Example C13_quantize_nonvacuous :
   img_ok [[(1,2,3); (200,2,3)]; [(1,2,3); (7,7,7)]]%N /\
   quantize [[(1,2,3); (200,2,3)]; [(1,2,3); (7,7,7)]]%N 2 true
